@@ -516,6 +516,52 @@ fn f(k: u8, v: u8) -> u8 {
     let mut d = e.finalize(prev2 / 2);
     prev + d.get(k.into())
 }"),
+    ("cover::dict_single_key", "fn f(k: felt252, v: u8) -> u8 {
+    let mut d: Felt252Dict<u8> = Default::default();
+    d.insert(k, v);
+    d.get(k)
+}"),
+    ("cover::dict_single_key_squash", "fn f(k: felt252, v: u8) -> u8 {
+    let mut d: Felt252Dict<u8> = Default::default();
+    d.insert(k, v);
+    d.insert(k, v / 2);
+    let r = d.get(k);
+    let _s = d.squash();
+    r
+}"),
+    ("cover::dict_neighbour_keys", "fn f(k: felt252, v: u8) -> u8 {
+    let mut d: Felt252Dict<u8> = Default::default();
+    d.insert(k, v);
+    d.insert(k + 1, 1);
+    d.insert(k - 1, 2);
+    d.get(k) / 2 + d.get(k + 1) + d.get(k - 1)
+}"),
+    ("cover::dict_untouched", "fn f(k: felt252) -> u8 {
+    let mut d: Felt252Dict<u8> = Default::default();
+    let r = d.get(k);
+    let mut e: Felt252Dict<u8> = Default::default();
+    r + e.get(0)
+}"),
+    ("cover::dict_nullable", "use core::nullable::{NullableTrait, match_nullable, FromNullableResult};
+fn f(k: felt252, v: u64) -> u64 {
+    let mut d: Felt252Dict<Nullable<u64>> = Default::default();
+    d.insert(k, NullableTrait::new(v));
+    match match_nullable(d.get(k)) { FromNullableResult::Null => 0, FromNullableResult::NotNull(b) => b.unbox() }
+}"),
+    ("cover::u256_ops", "fn f(a: u128, b: u128, c: u128) -> u256 {
+    let x = u256 { low: a, high: b };
+    let y = u256 { low: c, high: 1 };
+    let (q, r) = DivRem::div_rem(x, y.try_into().unwrap());
+    q + r
+}"),
+    ("cover::u128_ops", "fn f(a: u128, b: u128) -> u128 {
+    let (q, r) = DivRem::div_rem(a, (b | 1).try_into().unwrap());
+    let s = core::num::traits::Sqrt::sqrt(a);
+    core::num::traits::WrappingAdd::wrapping_add(q, r) ^ s.into()
+}"),
+    ("cover::felt_to_ints", "fn f(a: felt252) -> (Option<u8>, Option<u64>, Option<u128>, Option<i8>, Option<i128>) {
+    (a.try_into(), a.try_into(), a.try_into(), a.try_into(), a.try_into())
+}"),
     ("cover::ec", "use core::ec::{EcPointTrait, EcStateTrait};
 fn f(m: felt252, x: u8) -> felt252 {
     let p = match EcPointTrait::new_from_x(x.into()) { Some(p) => p, None => EcPointTrait::new_from_x(1).unwrap() };
@@ -634,15 +680,9 @@ pub fn c03_worker(ctx: &mut Ctx) {
         .filter(|c| matches!(c.name.as_str(), "add" | "sub" | "mul" | "div" | "rem" | "div_rem" | "lt" | "le" | "sqrt" | "wide_mul" | "overflowing_add" | "overflowing_sub" | "overflowing_mul" | "inv_mod" | "pow" | "neg") || c.name.starts_with("try_into"))
         .map(|c| (format!("op::{}::{}", c.ty.name, c.name), crate::opmatrix::source_of(c)))
         .collect();
+    // W3 snippets; these include the W5 coverage programs and the range-cast family.
     sources.extend(snippet_cases());
-    sources.extend(HINT_COVERAGE_PROGRAMS.iter().map(|(n, c)| (n.to_string(), c.to_string())));
-    let explicit: HashMap<String, Vec<BigInt>> = range_cast_programs()
-        .into_iter()
-        .map(|(n, c, ins)| {
-            sources.push((n.clone(), c));
-            (n, ins)
-        })
-        .collect();
+    let explicit: HashMap<String, Vec<BigInt>> = range_cast_programs().into_iter().map(|(n, _, ins)| (n, ins)).collect();
     ctx.count("programs", sources.len() as u64);
     let results: Vec<ShardResult> = sources
         .par_iter()
